@@ -32,6 +32,7 @@ def events():
         # later messages must follow the latest claim whether or not the claim itself is delivered
         "claim1b": wire.claim_packet(1, wire.iso_name(unique=7, mfr=229, function=140, dev_class=10)),
         "claim2b": wire.claim_packet(2, wire.iso_name(unique=8, mfr=1855, function=150, dev_class=40)),
+        "claim2as1": wire.claim_packet(2, wire.iso_name(unique=5, mfr=1855)),      # the NAME source 1 claims, now from source 2 (the device moved)
     }
     # the same kinds of traffic through the entry points that take text: a single frame as a Yacht Devices line,
     # a single frame and a pre-assembled fast-packet message as Actisense records
